@@ -122,7 +122,7 @@ pub struct Monitor {
 
 impl Monitor {
     pub fn new() -> Monitor {
-        Monitor { seen: HashMap::new(), keep_items: 400_000 }
+        Monitor { seen: HashMap::new(), keep_items: 60_000 }
     }
 
     pub fn observe(&mut self, ctx: &mut Ctx, item: &Item, family: &str) {
@@ -171,7 +171,12 @@ impl Monitor {
         // unordered compounds, additionally by sorted-token fingerprint in a second namespace.
         let tfp = fnv64(text.as_bytes());
         let kfp = fnv64(key.as_bytes());
-        let keep = if self.seen.len() < self.keep_items { Some(item.clone()) } else { None };
+        // witnesses are kept for the first items and only while they are small (memory)
+        let small = match item {
+            Item::N(n) => n.term().size() <= 30,
+            _ => true,
+        };
+        let keep = if self.seen.len() < self.keep_items && small { Some(item.clone()) } else { None };
         match self.seen.get(&(ns, tfp)) {
             Some((other_k, other_item)) => {
                 if *other_k != kfp {
@@ -229,6 +234,16 @@ pub fn run(ctx: &mut Ctx) {
         for t in SPECIAL_TIMES.iter().chain([2isize, 10, -10, 100].iter()) {
             mon.observe(ctx, &Item::Stamp(StampD::Fixed(*t)), "stamp");
         }
+        // neighbouring large times (a float detour would merge them), standalone and inside sentences
+        for base in [1isize << 53, (1 << 53) + 2, 1 << 60, 1 << 62, isize::MAX - 3, isize::MIN + 1, 1_790_380_800_000_000_000, -(1 << 53) - 4, 999_999_999_999_999_999] {
+            for d in 0..3isize {
+                let t = base.saturating_add(d);
+                mon.observe(ctx, &Item::Stamp(StampD::Fixed(t)), "stamp-neighbours");
+                let sd = SD { term: TD::word("A"), punct: PunctD::Judgement, stamp: StampD::Fixed(t), truth: vec![] };
+                mon.observe(ctx, &Item::N(ND::Sent(sd.clone())), "stamp-neighbours");
+                mon.observe(ctx, &Item::N(ND::Task(KD { sent: sd, budget: vec![0.5] })), "stamp-neighbours");
+            }
+        }
         let fl = SPECIAL_FLOATS;
         mon.observe(ctx, &Item::Truth(vec![]), "truth");
         mon.observe(ctx, &Item::Budget(vec![]), "budget");
@@ -273,7 +288,7 @@ pub fn run(ctx: &mut Ctx) {
             0 => {
                 // near-miss family: same components, sibling constructor / other index / other order
                 let d__ = 2 + rng.below(3);
-                let t = g.term(&mut rng, d__, false);
+                let t = g.term_x(&mut rng, d__);
                 mon.observe(ctx, &Item::N(ND::Term(t.clone())), "near-miss");
                 if let Some(m) = super::c06::near_miss(&t, &mut rng) {
                     mon.observe(ctx, &Item::N(ND::Term(m)), "near-miss");
@@ -310,7 +325,7 @@ pub fn run(ctx: &mut Ctx) {
             }
             3 => {
                 let d__ = 2 + rng.below(4);
-                let t = g.term(&mut rng, d__, false);
+                let t = g.term_x(&mut rng, d__);
                 order_check(ctx, &t, &mut rng);
                 mon.observe(ctx, &Item::N(ND::Term(t)), "random");
             }
@@ -319,7 +334,12 @@ pub fn run(ctx: &mut Ctx) {
                 let mut s = g.task(&mut rng, 2);
                 mon.observe(ctx, &Item::N(ND::Task(s.clone())), "item-variants");
                 match rng.below(4) {
-                    0 => s.sent.stamp = g.stamp(&mut rng),
+                    0 => {
+                        s.sent.stamp = match s.sent.stamp {
+                            StampD::Fixed(t) if rng.chance(1, 2) => StampD::Fixed(t.wrapping_add(1)),
+                            _ => g.stamp(&mut rng),
+                        }
+                    }
                     1 => {
                         s.budget = (0..rng.below(4)).map(|_| g.float(&mut rng)).collect();
                     }
